@@ -15,6 +15,15 @@ TICKS = 10_000_000
 BASE = (1 << 20) * TICKS               # 2^20 s in 100 ns ticks
 
 
+def _held(lock):
+    """is the lock held (by anybody)?  A lock type that cannot tell (RLock before 3.14) switches the monitor off rather than failing"""
+    f = getattr(lock, 'locked', None)
+    try:
+        return True if f is None else bool(f())
+    except Exception:
+        return True
+
+
 class Clock:
     """time.time() replacement: the n-th reading is BASE + adv + 2n ticks (always even)."""
     def __init__(self):
@@ -29,7 +38,7 @@ class Clock:
         self.tl = threading.local()     # .current: the socket whose request this thread is processing
 
     def time(self):
-        if self.lock is not None and not self.frozen and not self.lock.locked():
+        if self.lock is not None and not self.frozen and not _held(self.lock):
             self.unlocked.append('the clock was read while the server lock was not held')
         if self.frozen:
             return self.last / 1e7
@@ -102,7 +111,7 @@ def make_socket_class(clock, rnd):
         def put_response(self, msg):
             # a reply or message handed to ANOTHER connection (PUBLISH deliveries) belongs to the critical section of the command that causes it
             cur = getattr(clock.tl, 'current', None)
-            if cur is not None and cur is not self and clock.lock is not None and not clock.lock.locked():
+            if cur is not None and cur is not self and clock.lock is not None and not _held(clock.lock):
                 clock.unlocked.append('a message was handed to another connection after the server lock had been released')
             return FS.FakeSocket.put_response(self, msg)
 
